@@ -1246,6 +1246,63 @@ func vfC16DeadlineBehindHandshake(res *vfResult, iter int) {
 	}
 }
 
+// vfC16BothCloseStress (real scheduler): both applications close at the same moment, so that each side's read loop answers
+// the peer's close_notify while its own Close is sending one. Whatever the interleaving, one close_notify per side.
+func vfC16BothCloseStress(res *vfResult, iter int) {
+	variants := []string{"12-ecdsa", "12-cid", "13", "13-cid", "12-psk-cbc"}
+	cfg := vfC16Cfg(variants[iter%len(variants)])
+	co, so := cfg.Options(nil, nil)
+	n := vfNewNet()
+	p, err := vfNewPair(n, co, so)
+	res.Eval(1)
+	if err != nil {
+		return
+	}
+	if ce, se := p.Handshake(20 * time.Second); ce != nil || se != nil {
+		p.Close()
+
+		return
+	}
+	time.Sleep(20 * time.Millisecond)
+	tk, terr := vfNewToolkit(p)
+	if terr != nil {
+		p.Close()
+
+		return
+	}
+	cidC, cidS := vfCIDLenOf(p.C.Conn), vfCIDLenOf(p.S.Conn)
+	mark := n.LogLen()
+	start := make(chan struct{})
+	done := make(chan struct{}, 2)
+	// the second closer starts a little after the first: the offset walks through the window in which the first
+	// side's close_notify arrives while the second side's Close is on its way
+	off := time.Duration(iter%16) * 40 * time.Microsecond
+	go func() { <-start; _ = p.C.Conn.Close(); done <- struct{}{} }()
+	go func() { <-start; time.Sleep(off); _ = p.S.Conn.Close(); done <- struct{}{} }()
+	close(start)
+	for i := 0; i < 2; i++ {
+		select {
+		case <-done:
+		case <-time.After(20 * time.Second):
+			res.Violate("C16:close-did-not-return:both-close-stress", "Close did not return within 20 s; "+cfg.FP(), map[string]any{"iter": iter, "both": true})
+		}
+	}
+	time.Sleep(30 * time.Millisecond)
+	res.Count("both_close_stress_checked", 1)
+	for _, side := range []struct {
+		name string
+		cid  int
+	}{{"c", cidS}, {"s", cidC}} {
+		cn, _, _, _ := vfCountAlerts(n, tk, side.name, mark, side.cid)
+		if cn > 1 {
+			res.Violate("C16:close-notify-sent-twice:both-close-stress", fmt.Sprintf("%d close_notify alerts left endpoint %s when both applications closed at once; %s", cn, side.name, cfg.FP()),
+				map[string]any{"iter": iter, "both": true})
+		}
+	}
+	res.NonTrivial(fmt.Sprintf("bothclose/%d", iter))
+	p.Close()
+}
+
 // vfC16CloseRace: the peer closes; this side's read loop answers with close_notify, and that datagram is still
 // being written (socket slow for a moment) when the application calls Close here as well. One close_notify may
 // leave this endpoint. Real time, for the same reason as vfC16ParkedWrite.
@@ -1325,11 +1382,16 @@ func TestVF_C16(t *testing.T) {
 				Race   bool      `json:"race"`
 				CloseI *int      `json:"close_imported"`
 				Behind bool      `json:"behind"`
+				Both   bool      `json:"both"`
 			} `json:"replay"`
 		}
 		vfLoadReplay(t, &rf)
 		vfDumpWire = true
-		if rf.Replay.Iter != nil && rf.Replay.Behind {
+		if rf.Replay.Iter != nil && rf.Replay.Both {
+			for k := 0; k < 50; k++ {
+				vfC16BothCloseStress(res, *rf.Replay.Iter)
+			}
+		} else if rf.Replay.Iter != nil && rf.Replay.Behind {
 			vfC16DeadlineBehindHandshake(res, *rf.Replay.Iter)
 		} else if rf.Replay.CloseI != nil {
 			synctest.Test(t, func(t *testing.T) { vfC16CloseImported(t, res, *rf.Replay.CloseI) })
@@ -1356,6 +1418,7 @@ func TestVF_C16(t *testing.T) {
 	vfBubbles(t, vfPick(12, 48), func(t *testing.T, i int) { vfC16CloseImported(t, res, i) })
 	vfParallel(vfPick(10, 100), func(_, i int) { vfC16ParkedWrite(res, i) })
 	vfParallel(vfPick(20, 200), func(_, i int) { vfC16CloseRace(res, i) })
+	vfParallel(vfPick(240, 1200), func(_, i int) { vfC16BothCloseStress(res, i) })
 	vfParallel(vfPick(10, 100), func(_, i int) { vfC16ParkedWriteDeadline(res, i) })
 	vfParallel(vfPick(4, 16), func(_, i int) { vfC16CloseFromCallback(res, i) })
 	vfParallel(vfPick(24, 72), func(_, i int) { vfC16DeadlineBehindHandshake(res, i) })
